@@ -4,7 +4,9 @@ package main
 // verifrt.MkFifo / FifoOpenWriter / (*FifoWriter).Write / Close.
 
 import (
+	"fmt"
 	"go/types"
+	"os"
 )
 
 type fifoState struct {
@@ -172,21 +174,14 @@ func init() {
 		}
 		c := f.chunks[0]
 		n := copy(buf, c)
+		if schedTrace {
+			fmt.Fprintf(os.Stderr, "FIFO read %s: %d bytes by %s\n", fs.path, n, p.cur.name)
+		}
 		if n == len(c) {
 			f.chunks = f.chunks[1:]
 		} else {
 			f.chunks[0] = c[n:]
 		}
 		return tuple{n, nilError()}
-	}
-	st["os.Stat"] = func(fr *frame, args []value) value {
-		p := fr.i.p
-		path, _ := args[0].(string)
-		f := p.fifoByPath(path)
-		if f == nil {
-			return tuple{iface{}, fr.i.mkError("stat " + path + ": no such file or directory")}
-		}
-		p.abort("unsupported", "os.Stat result")
-		return nil
 	}
 }
